@@ -140,21 +140,26 @@ def find(
     oldest = after > datetime(1980, 1, 1, tzinfo=UTC) and limit is not None
     one = timedelta(seconds=1)
     oneday = timedelta(days=1)
-    while (limit is None or len(entries) < limit) and before > after:
+    # walk the day directories with a cursor of its own so that the window
+    # (after, before) stays fixed and every day down to the day of after is
+    # visited whatever the time of day of the bounds
+    cursor = before.astimezone(UTC)
+    first = after.astimezone(UTC).date()
+    while (limit is None or len(entries) < limit) and cursor.date() >= first:
         journal = os.path.join(
-            dawgie.context.data_dbs, 'chronicles', str(before.year)
+            dawgie.context.data_dbs, 'chronicles', str(cursor.year)
         )
         if os.path.isdir(journal):
-            journal = os.path.join(journal, f'{before.month:02d}')
+            journal = os.path.join(journal, f'{cursor.month:02d}')
             if os.path.isdir(journal):
-                journal = os.path.join(journal, f'{before.day:02d}')
+                journal = os.path.join(journal, f'{cursor.day:02d}')
                 if os.path.isdir(journal):
                     entries.extend(_load(after, before, journal, succeeded))
-                before = before - oneday
+                cursor = cursor - oneday
             else:
-                before = (
-                    datetime(before.year, before.month, 1, tzinfo=UTC) - one
+                cursor = (
+                    datetime(cursor.year, cursor.month, 1, tzinfo=UTC) - one
                 )
         else:
-            before = datetime(before.year, 1, 1, tzinfo=UTC) - one
+            cursor = datetime(cursor.year, 1, 1, tzinfo=UTC) - one
     return entries[-limit:] if oldest else entries[:limit]
